@@ -34,6 +34,15 @@ type ev struct {
 // easily mistaken for "somebody's context ended").
 var errCloseSentinel = errors.New("verif: sender close error")
 var errCloseWrapsCanceled = fmt.Errorf("verif: producer aborted: %w", context.Canceled)
+var errCloseWrapsEnd = fmt.Errorf("verif: upstream ended unexpectedly: %w", stream.End)
+var errCloseIsEnd error = isEndErr{}
+var errCloseDeadline = fmt.Errorf("verif: producer timed out: %w", context.DeadlineExceeded)
+
+// isEndErr is a failure whose Is method matches stream.End: still a failure, not the normal end.
+type isEndErr struct{}
+
+func (isEndErr) Error() string        { return "verif: typed close error whose Is matches stream.End" }
+func (isEndErr) Is(target error) bool { return target == stream.End }
 
 // errClose is the close error of the current case (cases run one at a time).
 var errClose = errCloseSentinel
@@ -122,10 +131,7 @@ func runCase(c *vkit.Case) {
 	buffer := []int{0, 1, 2, 8}[rnd.Intn(4)]
 	nSenders := []int{1, 2, 4, 8}[rnd.Intn(4)]
 	closeWithErr := rnd.Bool(0.4)
-	errClose = errCloseSentinel
-	if rnd.Bool(0.4) {
-		errClose = errCloseWrapsCanceled
-	}
+	errClose = []error{errCloseSentinel, errCloseSentinel, errCloseWrapsCanceled, errCloseWrapsCanceled, errCloseWrapsEnd, errCloseIsEnd, errCloseDeadline}[rnd.Intn(7)]
 	closerMode := rnd.Intn(2) // 0 after senders joined, 1 concurrently with them
 	recvEarly := -1           // receiver closes after this many items (-1: reads to the end)
 	if rnd.Bool(0.35) {
